@@ -18,7 +18,7 @@
    its counterexample is the script the harness forces on the real goroutines. *)
 EXTENDS Naturals, Sequences, FiniteSets, TLC
 
-CONSTANTS NCons, Cap, Variant, TreeId, FailNode
+CONSTANTS NCons, Cap, Variant, TreeId, FailNode, FailList    \* FailList: a directory node whose listing fails (99 = none)
 
 \* ---- a few tree shapes: node -> [parent, dir]; parent 0 = the walk's root
 Tree == CASE TreeId = 1 -> <<[parent |-> 0, dir |-> FALSE]>>                                   \* one file
@@ -31,38 +31,42 @@ Nodes == 1..Len(Tree)
 Cons == 1..NCons
 
 VARIABLES dirQ, fileQ, enq, pdone, step, closer, closed,
-          cpc, cstep, citem, cbs, running, maxRunning, killed, errs, waited
-vars == <<dirQ, fileQ, enq, pdone, step, closer, closed, cpc, cstep, citem, cbs, running, maxRunning, killed, errs, waited>>
+          cpc, cstep, citem, cbs, running, maxRunning, killed, errs, waited, listFailed
+vars == <<dirQ, fileQ, enq, pdone, step, closer, closed, cpc, cstep, citem, cbs, running, maxRunning, killed, errs, waited, listFailed>>
 
 Init == /\ dirQ = <<>> /\ fileQ = <<>> /\ enq = {} /\ pdone = FALSE /\ step = 0 /\ closer = "wait" /\ closed = FALSE
         /\ cpc = [c \in Cons |-> "top"] /\ cstep = [c \in Cons |-> 0] /\ citem = [c \in Cons |-> 0]
-        /\ cbs = [n \in Nodes |-> 0] /\ running = 0 /\ maxRunning = 0 /\ killed = FALSE /\ errs = 0 /\ waited = FALSE
+        /\ cbs = [n \in Nodes |-> 0] /\ running = 0 /\ maxRunning = 0 /\ killed = FALSE /\ errs = 0 /\ waited = FALSE /\ listFailed = FALSE
 
 \* ---------------- producers
-CanEnq(n) == n \notin enq /\ (Tree[n].parent = 0 \/ Tree[n].parent \in enq)
+CanEnq(n) == n \notin enq /\ (Tree[n].parent = 0 \/ Tree[n].parent \in enq) /\ Tree[n].parent # FailList
+\* the producer that lists the failing directory records the error (strict lifecycle: kill)
+ListFails == /\ FailList \in Nodes /\ FailList \in enq /\ ~listFailed /\ ~pdone /\ listFailed' = TRUE /\ errs' = errs + 1 /\ killed' = TRUE
+             /\ UNCHANGED <<dirQ, fileQ, enq, pdone, step, closer, closed, cpc, cstep, citem, cbs, running, maxRunning, waited>>
+Reachable == { n \in Nodes : LET RECURSIVE Ok(_) Ok(x) == Tree[x].parent # FailList /\ (Tree[x].parent = 0 \/ Ok(Tree[x].parent)) IN Ok(n) }
 Enqueue(n) == /\ ~pdone /\ CanEnq(n)
               /\ IF Tree[n].dir THEN Len(dirQ) < Cap /\ dirQ' = Append(dirQ, n) /\ UNCHANGED fileQ
                  ELSE Len(fileQ) < Cap /\ fileQ' = Append(fileQ, n) /\ UNCHANGED dirQ
               /\ enq' = enq \cup {n}
-              /\ UNCHANGED <<pdone, step, closer, closed, cpc, cstep, citem, cbs, running, maxRunning, killed, errs, waited>>
+              /\ UNCHANGED <<pdone, step, closer, closed, cpc, cstep, citem, cbs, running, maxRunning, killed, errs, waited, listFailed>>
 \* a killed lifecycle lets the producers stop early
-ProducersDone == /\ ~pdone /\ (enq = Nodes \/ killed) /\ pdone' = TRUE
-                 /\ UNCHANGED <<dirQ, fileQ, enq, step, closer, closed, cpc, cstep, citem, cbs, running, maxRunning, killed, errs, waited>>
+ProducersDone == /\ ~pdone /\ ((enq = Reachable /\ (FailList \in enq => listFailed)) \/ killed) /\ pdone' = TRUE
+                 /\ UNCHANGED <<dirQ, fileQ, enq, step, closer, closed, cpc, cstep, citem, cbs, running, maxRunning, killed, errs, waited, listFailed>>
 \* ---------------- the goroutine that announces completion
 Announce == /\ closer = "wait" /\ pdone /\ step' = 999 /\ closer' = "announced"
-            /\ UNCHANGED <<dirQ, fileQ, enq, pdone, closed, cpc, cstep, citem, cbs, running, maxRunning, killed, errs, waited>>
+            /\ UNCHANGED <<dirQ, fileQ, enq, pdone, closed, cpc, cstep, citem, cbs, running, maxRunning, killed, errs, waited, listFailed>>
 CloseChans == /\ closer = "announced" /\ closed' = TRUE /\ closer' = "done"
-              /\ UNCHANGED <<dirQ, fileQ, enq, pdone, step, cpc, cstep, citem, cbs, running, maxRunning, killed, errs, waited>>
+              /\ UNCHANGED <<dirQ, fileQ, enq, pdone, step, cpc, cstep, citem, cbs, running, maxRunning, killed, errs, waited, listFailed>>
 \* ---------------- consumers
 Goto(c, l) == cpc' = [cpc EXCEPT ![c] = l]
 Empty == dirQ = <<>> /\ fileQ = <<>>
-UC == UNCHANGED <<dirQ, fileQ, enq, pdone, step, closer, closed, cstep, citem, cbs, running, maxRunning, killed, errs, waited>>
+UC == UNCHANGED <<dirQ, fileQ, enq, pdone, step, closer, closed, cstep, citem, cbs, running, maxRunning, killed, errs, waited, listFailed>>
 Top(c) == /\ cpc[c] = "top"
           /\ IF killed THEN Goto(c, "exit") ELSE Goto(c, IF Variant = "prefix" THEN "testempty" ELSE "readstep")
           /\ UC
 \* current: read the step first
 ReadStepC(c) == /\ Variant # "prefix" /\ cpc[c] = "readstep" /\ cstep' = [cstep EXCEPT ![c] = step] /\ Goto(c, "testempty")
-                /\ UNCHANGED <<dirQ, fileQ, enq, pdone, step, closer, closed, citem, cbs, running, maxRunning, killed, errs, waited>>
+                /\ UNCHANGED <<dirQ, fileQ, enq, pdone, step, closer, closed, citem, cbs, running, maxRunning, killed, errs, waited, listFailed>>
 TestEmptyC(c) == /\ Variant # "prefix" /\ cpc[c] = "testempty"
                  /\ Goto(c, IF Empty THEN (IF cstep[c] = 999 THEN "exit" ELSE "top") ELSE "recvdir")
                  /\ UC
@@ -71,30 +75,30 @@ TestEmptyP(c) == /\ Variant = "prefix" /\ cpc[c] = "testempty" /\ Goto(c, IF Emp
 ReadStepP(c) == /\ Variant = "prefix" /\ cpc[c] = "readstep" /\ Goto(c, IF step = 999 THEN "exit" ELSE "top") /\ UC
 \* non-blocking receives, directories first, then files, as in the code
 RecvDir(c) == /\ cpc[c] = "recvdir"
-              /\ IF dirQ = <<>> THEN Goto(c, "recvfile") /\ UNCHANGED <<dirQ, citem>>
+              /\ IF dirQ = <<>> THEN Goto(c, "recvfile") /\ UNCHANGED <<dirQ, citem, listFailed>>
                  ELSE /\ citem' = [citem EXCEPT ![c] = Head(dirQ)] /\ dirQ' = Tail(dirQ) /\ Goto(c, "cbdir")
-              /\ UNCHANGED <<fileQ, enq, pdone, step, closer, closed, cstep, cbs, running, maxRunning, killed, errs, waited>>
+              /\ UNCHANGED <<fileQ, enq, pdone, step, closer, closed, cstep, cbs, running, maxRunning, killed, errs, waited, listFailed>>
 RecvFile(c) == /\ cpc[c] = "recvfile"
-               /\ IF fileQ = <<>> THEN Goto(c, "top") /\ UNCHANGED <<fileQ, citem>>
+               /\ IF fileQ = <<>> THEN Goto(c, "top") /\ UNCHANGED <<fileQ, citem, listFailed>>
                   ELSE /\ citem' = [citem EXCEPT ![c] = Head(fileQ)] /\ fileQ' = Tail(fileQ) /\ Goto(c, "cbfile")
-               /\ UNCHANGED <<dirQ, enq, pdone, step, closer, closed, cstep, cbs, running, maxRunning, killed, errs, waited>>
+               /\ UNCHANGED <<dirQ, enq, pdone, step, closer, closed, cstep, cbs, running, maxRunning, killed, errs, waited, listFailed>>
 CbBegin(c) == /\ cpc[c] \in {"cbdir", "cbfile"}
               /\ cbs' = [cbs EXCEPT ![citem[c]] = @ + 1] /\ running' = running + 1
               /\ maxRunning' = IF running + 1 > maxRunning THEN running + 1 ELSE maxRunning
               /\ Goto(c, IF cpc[c] = "cbdir" THEN "enddir" ELSE "endfile")
-              /\ UNCHANGED <<dirQ, fileQ, enq, pdone, step, closer, closed, cstep, citem, killed, errs, waited>>
+              /\ UNCHANGED <<dirQ, fileQ, enq, pdone, step, closer, closed, cstep, citem, killed, errs, waited, listFailed>>
 CbEnd(c) == /\ cpc[c] \in {"enddir", "endfile"} /\ running' = running - 1
-            /\ IF citem[c] = FailNode THEN errs' = errs + 1 /\ killed' = TRUE ELSE UNCHANGED <<errs, killed>>
+            /\ IF citem[c] = FailNode THEN errs' = errs + 1 /\ killed' = TRUE ELSE UNCHANGED <<errs, killed, listFailed>>
             /\ Goto(c, IF cpc[c] = "enddir" THEN "recvfile" ELSE "top")
-            /\ UNCHANGED <<dirQ, fileQ, enq, pdone, step, closer, closed, cstep, citem, cbs, maxRunning, waited>>
+            /\ UNCHANGED <<dirQ, fileQ, enq, pdone, step, closer, closed, cstep, citem, cbs, maxRunning, waited, listFailed>>
 AllExited == \A c \in Cons : cpc[c] = "exit"
 WaitReturn == /\ ~waited /\ AllExited /\ waited' = TRUE
-              /\ UNCHANGED <<dirQ, fileQ, enq, pdone, step, closer, closed, cpc, cstep, citem, cbs, running, maxRunning, killed, errs>>
+              /\ UNCHANGED <<dirQ, fileQ, enq, pdone, step, closer, closed, cpc, cstep, citem, cbs, running, maxRunning, killed, errs, listFailed>>
 Next == \/ \E n \in Nodes : Enqueue(n)
-        \/ ProducersDone \/ Announce \/ CloseChans \/ WaitReturn
+        \/ ProducersDone \/ ListFails \/ Announce \/ CloseChans \/ WaitReturn
         \/ \E c \in Cons : Top(c) \/ ReadStepC(c) \/ TestEmptyC(c) \/ TestEmptyP(c) \/ ReadStepP(c) \/ RecvDir(c) \/ RecvFile(c) \/ CbBegin(c) \/ CbEnd(c)
         \/ (waited /\ closer = "done" /\ UNCHANGED vars)
-Fairness == /\ WF_vars(ProducersDone) /\ WF_vars(Announce) /\ WF_vars(CloseChans) /\ WF_vars(WaitReturn)
+Fairness == /\ WF_vars(ProducersDone) /\ WF_vars(ListFails) /\ WF_vars(Announce) /\ WF_vars(CloseChans) /\ WF_vars(WaitReturn)
             /\ \A n \in Nodes : WF_vars(Enqueue(n))
             /\ \A c \in Cons : WF_vars(Top(c) \/ ReadStepC(c) \/ TestEmptyC(c) \/ TestEmptyP(c) \/ ReadStepP(c) \/ RecvDir(c) \/ RecvFile(c) \/ CbBegin(c) \/ CbEnd(c))
 Spec == Init /\ [][Next]_vars /\ Fairness
@@ -102,6 +106,7 @@ Spec == Init /\ [][Next]_vars /\ Fairness
 \* ---------------- the property layer
 AtMostOnce == \A n \in Nodes : cbs[n] <= 1
 NoLoss == (waited /\ errs = 0) => \A n \in Nodes : cbs[n] = 1
+ListingErrorRecorded == (FailList \in Nodes /\ FailList \in enq /\ pdone) => errs > 0
 MaxConcurrency == maxRunning <= NCons
 WaitAfterLastCallback == waited => running = 0
 \* once the failing callback has returned, the error list is non-empty
